@@ -31,10 +31,12 @@ C01ok(e, p) == /\ e.panic = ""
                /\ (e.nw = 1 => /\ e.raw.nl /\ e.raw.noctl /\ e.raw.utf8
                                /\ WellFormedTokens(Seq1(e.tokens)))
 HookLevelOK(e, p) == LET lv == e.abs.level IN
+                     LET R == RecIdx(p.hooks) IN
                      \A i \in 1..Len(e.hooks) :
-                       /\ e.hooks[i].id = i
-                       /\ e.hooks[i].level = (IF \E j \in 1..(i-1) : p.hooks[j] = "discard" THEN 7 ELSE lv)
+                       /\ i <= Len(R) /\ e.hooks[i].id = R[i]
+                       /\ e.hooks[i].level = (IF \E j \in 1..(R[i]-1) : p.hooks[j] = "discard" THEN 7 ELSE lv)
 C03ok(e, p, n) == /\ Len(e.hooks) = ExpectedHookRuns(p) /\ HookLevelOK(e, p)
+                  /\ e.hookmsgok                                  \* every hook received the event's final message
                   /\ (e.nw = 1 => KeysGot(e) = ExpectedKeys(p, n))
                   /\ (Discarded(p) => e.nw = 0)
 Conforms(e, p) == e.nw = 1 => Seq1(e.ctokens) = Render(p)
